@@ -111,6 +111,12 @@ def _num_bounds(dt: str, cls: str) -> list:
         "FloatNDV": [FLOAT_NDV],
         "IntNDV": [float(I32MIN)], "Int32Max": [float(I32MAX)], "Int32MinPlus1": [float(I32MIN + 1)],
     }
+    if dt in ("float32", "float64"):
+        # classes of the Concat family: float32 numbers around the float32 sentinel (2^-126 itself is F32NDV)
+        table.update({
+            "F32NDV": [2.0 ** -126],
+            "NearNDV32": [2.0 ** -126 + 2.0 ** -149, -(2.0 ** -126), 1.1754942106924411e-38, 2.0 ** -125],
+        })
     if dt == "float16":
         table.update({
             "IntSmall": [3.0, 100.0, 2048.0, 65504.0], "NegSmall": [-1.0, -2048.0, -65504.0],
@@ -206,7 +212,7 @@ def num_members(dt: str, cls: str, extra: int, seed: int) -> tuple:
         v = _num_random(dt, cls, rng)
         if v is not None and v not in out:
             out.append(v)
-    if dt in F_DT + I_DT + ("bool", "object", "list"):
+    if dt in F_DT + I_DT + ("bool", "object", "list") and cls not in ("F32NDV", "NearNDV32"):
         for v in out:
             got = classify_num(dt, num_value(v))
             if got != cls:
